@@ -29,6 +29,8 @@ def run(idx, rep, tier):
     res = Resolver(idx, core)
     # ------------------------------------------------------------ cholesky
     rules = res.rules_of("cholesky")
+    from sa.autorule import arity_obligations
+    arity_obligations(idx, rep, list(rules) + list(res.rules_of("plu")))
     if not rules:
         rep.missing_anchor("dispatched function cholesky")
     for rule in rules:
@@ -56,6 +58,25 @@ def run(idx, rep, tier):
             elif set(kinds) <= {"Diagonal", "ScalarMul"}:
                 nt = norm(t)
                 ok = nt[0] == "fn" and nt[1] in ("sqrt", "pow:0.5") and nt[2] == sym(a)
+                if not ok and has_opaque(nt):
+                    # the factor written on the payload: Diagonal(xnp.sqrt(A.diag)) IS sqrt(A); a root of anything else derived from the
+                    # payload (clipped, shifted, abs) is the factor of a different matrix; other forms are not judged
+                    v_ = df.resolve_value(fi.node, r.value) if isinstance(r.value, ast.Name) else r.value
+                    ok = None
+                    if isinstance(v_, ast.Call) and ast.unparse(v_.func).split(".")[-1] == "Diagonal" and len(v_.args) == 1:
+                        inner = df.resolve_value(fi.node, v_.args[0]) if isinstance(v_.args[0], ast.Name) else v_.args[0]
+                        if isinstance(inner, ast.Call) and df.is_xnp_call(inner) == "sqrt" and len(inner.args) == 1:
+                            arg = df.resolve_value(fi.node, inner.args[0]) if isinstance(inner.args[0], ast.Name) else inner.args[0]
+                            if ast.unparse(arg).replace(" ", "") == f"{a}.diag":
+                                ok = True
+                            elif any(isinstance(x, ast.Attribute) and x.attr == "diag" and isinstance(x.value, ast.Name) and x.value.id == a for x in ast.walk(arg)):
+                                ok = False
+                    if ok is True:
+                        rep.proved("structural-factor", rule.role, f"returns Diagonal(sqrt({a}.diag)): the element-wise root of the payload is sqrt({a})", locs=[loc])
+                        continue
+                    if ok is False:
+                        rep.refuted("structural-factor", rule.role, f"returns `{ast.unparse(v_)[:80]}`: the root is taken of a modified diagonal, L·L^H is not {a}", detail="sqrt", locs=[loc])
+                        continue
                 rep.decide(ok, "structural-factor", rule.role, f"returns {show(nt)}; required sqrt({a})", detail="" if ok else "sqrt", locs=[loc])
             elif len(kinds) == 1 and kinds[0] in FAM:
                 want = ("fam", FAM[kinds[0]], 1, ("chol", VAR), f"{a}.Ms") + ((f"{a}.multiplicities", ) if kinds[0] == "BlockDiag" else ())
